@@ -71,7 +71,9 @@ def canon_model(interp, v, depth=0):
         return v.as_bbytes().to_host()
     if isinstance(v, GenObj):
         return ('gen', [canon_model(interp, x) for x in interp.iterate(v)])
-    from .interp import SeqVal
+    from .interp import SeqVal, SRange
+    if isinstance(v, (SRange, range)):
+        return ('range', v.start, v.stop, v.step)
     if isinstance(v, SeqVal):
         return [canon_model(interp, v.item(j)) for j in range(int(v.n))]
     if isinstance(v, (list, tuple)):
@@ -107,6 +109,8 @@ def canon_real(v):
     import io
     if isinstance(v, io.BytesIO):
         return ('BytesIO', v.getvalue())
+    if isinstance(v, range):
+        return ('range', v.start, v.stop, v.step)
     if isinstance(v, bitstring.Bits):
         n = type(v).__name__
         s = v._bitstore.slice_to_bin() if len(v) else ''
